@@ -100,14 +100,14 @@ func (c *Ctx) ttCondValid() {
 				if v == nil {
 					return false, false
 				}
-				return fa.knownTerm(st, aTR, c.eng.tt.mk(Term{K: "B", S: "<=", A: c.intConst(1), B: v}))
+				return c.knownCmp(fa, st, c.intConst(1), v)
 			}},
 			{"op<=6", func(fa *FnAnalysis, st *State) (bool, bool) {
 				_, v := coTerm(fa, st)
 				if v == nil {
 					return false, false
 				}
-				return fa.knownTerm(st, aTR, c.eng.tt.mk(Term{K: "B", S: "<=", A: v, B: c.intConst(6)}))
+				return c.knownCmp(fa, st, v, c.intConst(6))
 			}},
 			nnAtom("ex==nil", "Condition.Expression", true),
 		},
@@ -484,4 +484,20 @@ func (c *Ctx) stringUses(v ssa.Value, target ssa.Value, seen map[ssa.Value]bool)
 		}
 	}
 	return false
+}
+
+// knownCmp: truth of a <= b in state st - by a stored fact or by linear entailment
+// (so that every spelling of a range test is recognised).
+func (c *Ctx) knownCmp(fa *FnAnalysis, st *State, a, b *Term) (bool, bool) {
+	le := c.eng.tt.mk(Term{K: "B", S: "<=", A: a, B: b})
+	if v, ok := fa.knownTerm(st, aTR, le); ok {
+		return v, true
+	}
+	if c.provesFact(fa, st, Fact{aTR, le, true}, nil) {
+		return true, true
+	}
+	if c.provesFact(fa, st, Fact{aTR, c.eng.tt.mk(Term{K: "B", S: "<", A: b, B: a}), true}, nil) {
+		return false, true
+	}
+	return false, false
 }
